@@ -214,6 +214,9 @@ func FreeVarBinding(fv *ssa.FreeVar) ssa.Value {
 func ValPath(v ssa.Value) string { return valPath(v, 0) }
 
 func valPath(v ssa.Value, d int) string {
+	if v == nil {
+		return ""
+	}
 	if d > 12 {
 		return "…"
 	}
